@@ -323,7 +323,8 @@ pub fn c12(o: &Oracle, thorough: bool, seed: u64, rep: &Report) {
         let ev = json!({"op":"parse_set","s":cps(&s)});
         let got = observe(&ev);
         if got["ok"] != json!(true) || got["res"] != limbs(e) {
-            viol(rep, ev, json!({"ok": true, "res": limbs(e)}), "set parsed from text is not exactly the distinct real cards among its tokens");
+            // the set built from text is C15's statement; C12 runs it for the parser's sake
+            advise(rep, ev, json!({"ok": true, "res": limbs(e)}), "set parsed from text is not exactly the distinct real cards among its tokens (C15, not C12)");
         }
         rep.eval(1);
     }
